@@ -34,4 +34,6 @@ for d in docs[1:]:
     m["violations"] = m.get("violations", 0) + d.get("violations", 0)
 mc = m["coverage"]
 mc["samples"] = mc["samples"][:10]
+if isinstance(mc.get("known_findings_met"), list):
+    mc["known_findings_met"] = sorted(set(mc["known_findings_met"]))  # parts may meet the same finding
 json.dump(m, open(out, "w"), indent=1)
